@@ -43,13 +43,24 @@ Proof. intros data now H. apply parse_total_bytes; [exact H|unfold FRAMES; lia].
 
 (* ... so the [Some e => (f, [ORaise e])] branch of fstep is dead for real datagrams: a datagram that passes the two
    guards is handed to the listener and only the listener / node / encoder decide what comes out *)
+(* the table of decoded packets after a datagram that passed the guards: a copy of a packet that is already waiting in the
+   reassembly list of its source is ignored (the packet object that waits keeps its own arrival time) *)
+Definition waiting (f : fnode) (addr : text) (data : bytes) : bool :=
+  match d_get text_eqb (ls_deferred (f_ls f)) addr with
+  | Some l => existsb (fun x => bytes_eqb (lm_data x) data) l | None => false end.
+
+Definition msgs_after (f : fnode) (addr : text) (data : bytes) (now : Z) : list (bytes * (qmsg * Z)) :=
+  if waiting f addr data then f_msgs f
+  else d_set bytes_eqb (f_msgs f) (mkey addr data)
+         (qmsg_of (parse data now None FRAMES) now, m_id (parse data now None FRAMES)).
+
 Lemma fstep_datagram_unfold_gen : forall f data addr port now tc rq rd,
   m_escaped (parse data now None FRAMES) = None ->
   Z.of_nat (length data) <= C_MAX_MSG_ABSOLUTE -> is_duplicate (f_ls f) data now = false ->
   fstep f (FDatagram data addr port now tc rq rd) =
   let p := parse data now None FRAMES in
   let m := lmsg_of data p in
-  let msgs' := d_set bytes_eqb (f_msgs f) (mkey addr data) (qmsg_of p now, m_id p) in
+  let msgs' := msgs_after f addr data now in
   let '(ls', o) := datagram (f_ls f) m addr now (nonempty (g_services (n_reg (f_node f)))) tc in
   match o with
   | OResponse _ =>
@@ -69,7 +80,7 @@ Corollary fstep_datagram_unfold : forall f data addr port now tc rq rd, Forall i
   fstep f (FDatagram data addr port now tc rq rd) =
   let p := parse data now None FRAMES in
   let m := lmsg_of data p in
-  let msgs' := d_set bytes_eqb (f_msgs f) (mkey addr data) (qmsg_of p now, m_id p) in
+  let msgs' := msgs_after f addr data now in
   let '(ls', o) := datagram (f_ls f) m addr now (nonempty (g_services (n_reg (f_node f)))) tc in
   match o with
   | OResponse _ =>
@@ -386,17 +397,49 @@ Lemma FInv_intro f' d t msgs : ls_deferred (f_ls f') = d -> ls_timers (f_ls f') 
   FInvP d t msgs -> FInv f'.
 Proof. intros <- <- <- H. exact H. Qed.
 
+(* ---- the table after a datagram: the key of the datagram is in it - just inserted, or (a copy of a waiting packet) already
+        there by the invariant ---- *)
+Lemma msgs_after_cases f addr data now :
+  msgs_after f addr data now = f_msgs f \/
+  msgs_after f addr data now = d_set bytes_eqb (f_msgs f) (mkey addr data)
+                                 (qmsg_of (parse data now None FRAMES) now, m_id (parse data now None FRAMES)).
+Proof. unfold msgs_after. destruct (waiting f addr data); [left|right]; reflexivity. Qed.
+
+Lemma msgs_after_mono f addr data now k :
+  d_get bytes_eqb (f_msgs f) k <> None -> d_get bytes_eqb (msgs_after f addr data now) k <> None.
+Proof. intro H. destruct (msgs_after_cases f addr data now) as [-> | ->]; [exact H|apply bset_get_mono; exact H]. Qed.
+
+Lemma msgs_after_In f addr data now k x : In (k, x) (msgs_after f addr data now) ->
+  In (k, x) (f_msgs f) \/ x = (qmsg_of (parse data now None FRAMES) now, m_id (parse data now None FRAMES)).
+Proof. destruct (msgs_after_cases f addr data now) as [-> | ->]; [intro H; left; exact H|apply bset_In]. Qed.
+
+Lemma waiting_key f addr data : FInv f -> waiting f addr data = true ->
+  d_get bytes_eqb (f_msgs f) (mkey addr data) <> None.
+Proof.
+  intros [HI1 _] W. unfold waiting in W.
+  destruct (d_get text_eqb (ls_deferred (f_ls f)) addr) as [l0|] eqn:G; [|discriminate W].
+  apply existsb_exists in W as (x & Hx & Hb). apply text_eqb_eq in Hb. subst data.
+  apply tget_In in G. exact (proj2 (HI1 addr l0 G) x Hx).
+Qed.
+
+Lemma msgs_after_new f addr data now : FInv f -> d_get bytes_eqb (msgs_after f addr data now) (mkey addr data) <> None.
+Proof.
+  intro HI. unfold msgs_after. destruct (waiting f addr data) eqn:W; [apply waiting_key; assumption|].
+  rewrite bset_get_same. discriminate.
+Qed.
+
 Theorem FInv_step : forall f l, FInv f -> FInv (fst (fstep f l)).
 Proof.
   intros f l HI. destruct l as [data addr port now tc rq rd|addr port now rq rd|nl]; cbn [fstep].
   - destruct (Z.of_nat (length data) >? C_MAX_MSG_ABSOLUTE); [exact HI|].
     destruct (is_duplicate (f_ls f) data now); [exact HI|].
     destruct (m_escaped (parse data now None FRAMES)); [exact HI|].
-    set (p := parse data now None FRAMES). set (msgs' := d_set bytes_eqb (f_msgs f) (mkey addr data) (qmsg_of p now, m_id p)).
+    fold (waiting f addr data). fold (msgs_after f addr data now).
+    set (p := parse data now None FRAMES). set (msgs' := msgs_after f addr data now).
     assert (Hmono : forall k, d_get bytes_eqb (f_msgs f) k <> None -> d_get bytes_eqb msgs' k <> None)
-      by (intro k; apply bset_get_mono).
+      by (intro k; apply msgs_after_mono).
     assert (Hnew : d_get bytes_eqb msgs' (mkey addr (lm_data (lmsg_of data p))) <> None)
-      by (cbn [lm_data lmsg_of]; unfold msgs'; rewrite bset_get_same; discriminate).
+      by (cbn [lm_data lmsg_of]; apply msgs_after_new; exact HI).
     apply FInv_P in HI.
     destruct (datagram (f_ls f) (lmsg_of data p) addr now (nonempty (g_services (n_reg (f_node f)))) tc) as [ls' o] eqn:E.
     apply datagram_cases in E as [_ [(D1 & D2 & D3)|[(-> & D1 & D2)|(-> & D1 & D2)]]].
@@ -500,7 +543,7 @@ Lemma fstep_wire_cases (Q : qmsg * Z -> Prop) f l : FInv f -> timer_ok f l ->
      Q (qmsg_of (parse data now None FRAMES) now, m_id (parse data now None FRAMES))) ->
   front_out Q f l.
 Proof.
-  intros [HI1 HI2] Hl HQ Hnew.
+  intros HI Hl HQ Hnew. pose proof HI as [HI1 HI2].
   destruct l as [data addr port now tc rq rd|addr port now rq rd|nl]; [| |destruct Hl]; cbn [timer_ok] in Hl.
   - specialize (Hnew data addr port now tc rq rd eq_refl).
     destruct (Z.of_nat (length data) >? C_MAX_MSG_ABSOLUTE) eqn:Esz.
@@ -511,7 +554,7 @@ Proof.
     { apply (FO_decoder Q f _ data addr port now tc rq rd e eq_refl Eesc). cbn [fstep]. rewrite Esz, Edup, Eesc. reflexivity. }
     pose proof (fstep_datagram_unfold_gen f data addr port now tc rq rd Eesc ltac:(lia) Edup) as EU. cbv zeta in EU.
     set (p := parse data now None FRAMES) in *.
-    set (msgs' := d_set bytes_eqb (f_msgs f) (mkey addr data) (qmsg_of p now, m_id p)) in *.
+    set (msgs' := msgs_after f addr data now) in *.
     destruct (datagram (f_ls f) (lmsg_of data p) addr now (nonempty (g_services (n_reg (f_node f)))) tc) as [ls' o] eqn:E.
     apply datagram_cases in E as [_ [(D1 & D2 & D3)|[(-> & D1 & D2)|(-> & D1 & D2)]]].
     + destruct o; try (apply FO_silent; rewrite EU; reflexivity).
@@ -521,9 +564,9 @@ Proof.
       * intro E0. apply app_eq_nil in E0 as [_ E0]. discriminate.
       * intros m Hm. apply in_app_or in Hm as [Hm|[<-|[]]].
         -- unfold deferred_of in Hm. destruct (d_get text_eqb (ls_deferred (f_ls f)) addr) as [l0|] eqn:G; [|destruct Hm].
-           apply tget_In in G. unfold msgs'. apply bset_get_mono. exact (proj2 (HI1 addr l0 G) m Hm).
-        -- cbn [lm_data lmsg_of]. unfold msgs'. rewrite bset_get_same. discriminate.
-      * intros k x Hin. unfold msgs' in Hin. apply bset_In in Hin as [Hin| ->]; [exact (HQ k x Hin)|exact Hnew].
+           apply tget_In in G. unfold msgs'. apply msgs_after_mono. exact (proj2 (HI1 addr l0 G) m Hm).
+        -- cbn [lm_data lmsg_of]. unfold msgs'. apply msgs_after_new. exact HI.
+      * intros k x Hin. unfold msgs' in Hin. apply msgs_after_In in Hin as [Hin| ->]; [exact (HQ k x Hin)|exact Hnew].
     + apply FO_silent. rewrite EU. reflexivity.
   - unfold timer_pending in Hl.
     pose proof (keys_get _ _ addr HI2 Hl) as Hd.
@@ -806,10 +849,14 @@ Proof.
   - destruct (Z.of_nat (length data) >? C_MAX_MSG_ABSOLUTE); [left; reflexivity|].
     destruct (is_duplicate (f_ls f) data now); [left; reflexivity|].
     destruct (m_escaped (parse data now None FRAMES)); [left; reflexivity|].
+    fold (waiting f addr data). fold (msgs_after f addr data now).
     destruct (datagram _ _ _ _ _ _) as [ls' o].
     destruct o; try (left; reflexivity).
-    + right. exists data, addr, port, now, tc, rq, rd. split; reflexivity.
-    + right. exists data, addr, port, now, tc, rq, rd. split; [reflexivity|]. apply (proj2 (respond_ls _ _ _ _ _ _ _ _ _)).
+    + cbn [fst f_msgs]. destruct (msgs_after_cases f addr data now) as [-> | ->]; [left; reflexivity|].
+      right. exists data, addr, port, now, tc, rq, rd. split; reflexivity.
+    + rewrite (proj2 (respond_ls _ _ _ _ _ _ _ _ _)).
+      destruct (msgs_after_cases f addr data now) as [-> | ->]; [left; reflexivity|].
+      right. exists data, addr, port, now, tc, rq, rd. split; reflexivity.
   - destruct (respond_query (f_ls f) None addr) as [ls' o].
     destruct o; try (left; reflexivity). left. apply (proj2 (respond_ls _ _ _ _ _ _ _ _ _)).
   - left. destruct (nstep (f_node f) nl) as [n' outs]. reflexivity.
